@@ -27,7 +27,7 @@ namespace M
 
 theorem get_ofFn_of_ge_left [Zero K] {n : Nat} (f : Nat → Nat → K) {i j : Nat} (hi : n ≤ i) :
     (ofFn n f).get i j = 0 := by
-  simp [ofFn, get, Array.getD, hi, Nat.not_lt.mpr hi]
+  simp [ofFn, get, Array.getD, Nat.not_lt.mpr hi]
 
 theorem ofFn_congr {n : Nat} {f g : Nat → Nat → K} (h : ∀ i j, i < n → j < n → f i j = g i j) :
     ofFn n f = ofFn n g := by
@@ -46,6 +46,39 @@ def toMat [Zero K] (A : M K) : Matrix (Fin A.n) (Fin A.n) K := fun i j => A.get 
 
 /-- the model matrix read at a given dimension `N` -/
 def toMatN [Zero K] (A : M K) (N : Nat) : Matrix (Fin N) (Fin N) K := fun i j => A.get i j
+
+/-! ### sums, products, dimensions -/
+
+theorem sumN_eq_sum [AddCommMonoid K] (n : Nat) (f : Nat → K) :
+    sumN n f = ∑ k ∈ Finset.range n, f k := by
+  induction n with
+  | zero => rfl
+  | succ n ih => rw [Finset.sum_range_succ, ← ih]; rfl
+
+@[simp] theorem mul_n [Add K] [Mul K] [Zero K] (A B : M K) : (A.mul B).n = A.n := rfl
+@[simp] theorem pad_n [Zero K] [One K] (A : M K) (k : Nat) : (A.pad k).n = A.n + k := rfl
+@[simp] theorem lead_n [Zero K] (A : M K) (k : Nat) : (A.lead k).n = k := rfl
+@[simp] theorem one_n [Zero K] [One K] (n : Nat) : (M.one n : M K).n = n := rfl
+
+theorem get_mul [Semiring K] (A B : M K) {r c : Nat} (hr : r < A.n) (hc : c < A.n) :
+    (A.mul B).get r c = ∑ k ∈ Finset.range A.n, A.get r k * B.get k c := by
+  unfold mul
+  rw [get_ofFn _ hr hc, sumN_eq_sum]
+
+theorem get_one [Semiring K] {n r c : Nat} (hr : r < n) (hc : c < n) :
+    (M.one n : M K).get r c = if r = c then 1 else 0 := by
+  unfold one
+  rw [get_ofFn _ hr hc]
+
+theorem get_lead [Zero K] (A : M K) {k r c : Nat} (hr : r < k) (hc : c < k) :
+    (A.lead k).get r c = A.get r c := by
+  unfold lead
+  rw [get_ofFn _ hr hc]
+
+theorem get_pad [Semiring K] (A : M K) {k r c : Nat} (hr : r < A.n + k) (hc : c < A.n + k) :
+    (A.pad k).get r c = if r < A.n ∧ c < A.n then A.get r c else if r = c then 1 else 0 := by
+  unfold pad
+  rw [get_ofFn _ hr hc]
 
 end M
 
